@@ -25,7 +25,10 @@
 //! This module intentionally uses simple set types for clarity; a future
 //! optimisation replaces them with block‑sparse bitmaps and SIMD kernels.
 
+#[cfg(not(feature = "echo_verif_flat"))]
 use std::collections::BTreeSet;
+#[cfg(feature = "echo_verif_flat")]
+use crate::verif_flat::BTreeSet;
 
 use crate::attachment::AttachmentKey;
 use crate::ident::{EdgeId, EdgeKey, NodeId, NodeKey, WarpId};
